@@ -10,6 +10,7 @@ def make_cmds(rnd, kind, S, params, tier):
     n = len(S)
     Sset = set(S)
     qs = [q for q in D.gen_queries(rnd, S, limit=10, splice=60) if q not in Sset][:90]
+    qs = [b""] + qs            # the empty string is never a member
     ids = BAD_IDS + [n + 1, n + 2, 2 * n + 1]
     for dn in names:
         cmds += ["q %s locate %s" % (dn, D.hx(q)) for q in qs]
@@ -36,8 +37,8 @@ def extra_eval(c, io, mo):
     return fails
 
 
-from props import gen_hashdict
-CFG = DC.Config("C02", D.ALL_KINDS, make_cmds, components=[gen_hashdict], nsets=(9, 24), big=True, extra_eval=extra_eval,
+from props import gen_hashdict, gen_xbw
+CFG = DC.Config("C02", D.ALL_KINDS, make_cmds, components=[gen_hashdict, gen_xbw], nsets=(9, 24), big=True, extra_eval=extra_eval,
                 rule="all 13 kinds; queries NOT in S: proper prefixes and one-byte extensions (0x02, a used byte, 0xFE) of members, "
                      "last byte +-1, one inner byte changed, below the first / above the last member, bytes occurring nowhere; "
                      "IDs 0, n+1, n+2, 2n+1, 2^32-1, 2^32, 2^32+1, 2^64-1. Each query runs in its own forked ASan process with the "
